@@ -217,6 +217,36 @@ mutual
 end
 
 mutual
+  /-- `allow_partial` agrees at every node (of two trees of the same shape). -/
+  def Tree.partEq : Tree → Tree → Bool
+    | .leaf _, .leaf _ => true
+    | .node m its, .node m' its' => m.part == m'.part && partEqItems its its'
+    | _, _ => false
+  def partEqItems : Items → Items → Bool
+    | [], [] => true
+    | (_, c) :: r, (_, c') :: r' => c.partEq c' && partEqItems r r'
+    | _, _ => false
+end
+
+mutual
+  /-- the `allow_partial` marks of a tree are what a clone reproduces: a spec-bound list held
+  directly in a field of an object carries the flag the object's constructor would hand it
+  (`adopt`: that flag — the object's own `allow_partial`, or the ambient scope's, F120). -/
+  def Tree.partFaithful (cfg : Cfg) (adopt : Option Bool) : Tree → Bool
+    | .leaf _ => true
+    | .node m its =>
+      (match adopt with
+       | some b => !m.typed || m.part == b
+       | none => true) &&
+      partFaithfulItems cfg (match m.kind with
+        | .obj _ => some (cfg.scopePartial.getD m.part)
+        | _ => none) its
+  def partFaithfulItems (cfg : Cfg) (adopt : Option Bool) : Items → Bool
+    | [] => true
+    | (_, c) :: r => c.partFaithful cfg adopt && partFaithfulItems cfg adopt r
+end
+
+mutual
   /-- no payload holds a MISSING placeholder (lists drop them while copying). -/
   def Tree.noMissing : Tree → Bool
     | .leaf _ => true
